@@ -892,7 +892,10 @@ func (s *Server) processPublish(cl *Client, pk packets.Packet) error {
 	}
 
 	if pk.FixedHeader.Qos > 0 && atomic.LoadInt32(&cl.State.Inflight.receiveQuota) == 0 { // qos 0 publishes never count towards receive maximum
-		return s.DisconnectClient(cl, packets.ErrReceiveMaximum) // ~[MQTT-3.3.4-7] ~[MQTT-3.3.4-8]
+		pki, ok := cl.State.Inflight.Get(pk.PacketID)
+		if pk.FixedHeader.Qos != 2 || !ok || pki.FixedHeader.Type != packets.Pubrec { // a retransmitted qos 2 publish belongs to an exchange which already holds its quota
+			return s.DisconnectClient(cl, packets.ErrReceiveMaximum) // ~[MQTT-3.3.4-7] ~[MQTT-3.3.4-8]
+		}
 	}
 
 	if !cl.Net.Inline && !s.hooks.OnACLCheck(cl, pk.TopicName, true) {
